@@ -185,15 +185,36 @@ func genSet(c *rig.Check, idx int) setCase {
 	}
 	// re-registration histories: some patterns are first registered with other settings (or twice
 	// with the same), the final settings come last
-	for h := 0; h < 3; h++ {
+	for h := 0; h < 4; h++ {
 		var st []step
 		o := perm()
 		var late []pat
 		for _, p := range o {
 			switch r.IntN(3) {
 			case 0:
-				alt := randPat(r, p.P)
+				alt := p
+				switch r.IntN(4) {
+				case 0: // only the type changes (same idle time)
+					alt.InMem = !p.InMem
+					alt.Write = 0
+					if !alt.InMem {
+						alt.Write = writes[r.IntN(len(writes))]
+					}
+				case 1: // only the idle time changes
+					alt.Idle = p.Idle + 7
+				case 2: // only the write interval changes (persistent), else the type
+					if p.InMem {
+						alt.InMem, alt.Write = false, writes[r.IntN(len(writes))]
+					} else {
+						alt.Write = p.Write + 3
+					}
+				default:
+					alt = randPat(r, p.P)
+				}
 				st = append(st, step{"reg", alt})
+				if r.IntN(4) == 0 { // a third registration in between
+					st = append(st, step{"reg", randPat(r, p.P)})
+				}
 				late = append(late, p)
 			case 1:
 				st = append(st, step{"reg", p})
@@ -293,6 +314,24 @@ func apply(st settings.Settings, h history) (pc string) {
 		}
 	}
 	return ""
+}
+
+// changed names what a re-registration changed (from an earlier registration a to the last b).
+func changed(a, b result) string {
+	var c []string
+	if a.Type != b.Type {
+		c = append(c, "type")
+	}
+	if a.Idle != b.Idle {
+		c = append(c, "idle")
+	}
+	if a.Write != b.Write && a.Type == b.Type {
+		c = append(c, "write-interval")
+	}
+	if len(c) == 0 {
+		return "nothing"
+	}
+	return strings.Join(c, "+")
 }
 
 func specClass(best []string) string {
@@ -429,19 +468,18 @@ func (o *observer) runSet(sc setCase) (nontrivial bool) {
 						case !matches(r.Pattern, n):
 							viol("resolve:registered-nonmatching-pattern-applied", fmt.Sprintf("%s: swamp %s resolved to %v which does not match it", where, n, r), h, n)
 						default:
-							// (b) the settings must be ones this pattern was registered with. Documentation is
-							// silent on whether a re-registration replaces the first one: either is accepted.
-							okSettings := false
-							for _, g := range given[r.Pattern] {
-								if g == r {
-									okSettings = true
+							// (b) the settings are those of the LAST registration of this pattern (a
+							// re-registration that changes type, idle time or write interval takes effect at
+							// runtime and in settings.json); in every history the last registration of a
+							// pattern is the one of the final set.
+							if w := want(fin); w != r {
+								sig := "resolve:settings-differ-from-registered:" + phase
+								for _, g := range given[r.Pattern] {
+									if g == r {
+										sig = "resolve:stale-settings-after-re-registration:" + changed(g, w) + ":" + phase
+									}
 								}
-							}
-							if h.Kind != "rereg" {
-								okSettings = want(fin) == r
-							}
-							if !okSettings {
-								viol("resolve:settings-differ-from-registered:"+phase, fmt.Sprintf("%s: swamp %s got %v, pattern was registered as %v", where, n, r, given[r.Pattern]), h, n)
+								viol(sig, fmt.Sprintf("%s: swamp %s got %v, the last registration of the pattern was %v (all registrations in order: %v)", where, n, r, w, given[r.Pattern]), h, n)
 							}
 							// (c) most specific wins
 							if len(m.best) == 1 && r.Pattern != m.best[0] {
@@ -486,7 +524,8 @@ func (o *observer) runSet(sc setCase) (nontrivial bool) {
 // part 2: end to end through the gateway
 
 type e2eCase struct {
-	Pats   []pat  `json:"pats"` // registration order
+	Pre    []pat  `json:"pre,omitempty"` // earlier registrations of some of the patterns (other type, same idle), registered first
+	Pats   []pat  `json:"pats"`          // registration order; the last registration of every pattern
 	Swamp  string `json:"swamp"`
 	Rounds int    `json:"rounds"`
 }
@@ -509,7 +548,17 @@ func genE2E(c *rig.Check, idx int) e2eCase {
 			ps[i].Write = 1
 		}
 	}
-	return e2eCase{Pats: ps, Swamp: s + "/r/w", Rounds: 12}
+	ec := e2eCase{Pats: ps, Swamp: s + "/r/w", Rounds: 12}
+	for _, p := range ps {
+		if r.IntN(2) == 0 {
+			q := pat{P: p.P, InMem: !p.InMem, Idle: p.Idle}
+			if !q.InMem {
+				q.Write = 1
+			}
+			ec.Pre = append(ec.Pre, q)
+		}
+	}
+	return ec
 }
 
 func (o *observer) runE2E(t *testing.T, ec e2eCase) {
@@ -541,7 +590,7 @@ func (o *observer) runE2E(t *testing.T, ec e2eCase) {
 		for boot := 0; boot < 2 && incon == ""; boot++ {
 			r := rig.New(rig.Options{Root: root})
 			if boot == 0 {
-				for _, p := range ec.Pats {
+				for _, p := range append(append([]pat{}, ec.Pre...), ec.Pats...) {
 					r.Register(p.P, p.InMem, p.Idle, p.Write)
 				}
 			}
@@ -588,8 +637,26 @@ func (o *observer) runE2E(t *testing.T, ec e2eCase) {
 			return
 		}
 	}
-	if len(best) == 1 && len(obs) > 0 && obs[0] != types[best[0]] {
-		c.Violate("e2e:less-specific-pattern-won", fmt.Sprintf("swamp %s: most specific pattern %s persistent=%v but .hyd present=%v on all summons", ec.Swamp, best[0], types[best[0]], obs[0]), map[string]any{"e2e": ec, "rounds": notes})
+	// the type observed must be the last registered type of a most specific pattern
+	if len(obs) == 0 {
+		return
+	}
+	allowed := false
+	for _, p := range best {
+		if types[p] == obs[0] {
+			allowed = true
+		}
+	}
+	if !allowed {
+		sig := "e2e:less-specific-pattern-won"
+		for _, q := range ec.Pre {
+			for _, p := range best {
+				if q.P == p && !q.InMem == obs[0] {
+					sig = "e2e:stale-type-after-re-registration"
+				}
+			}
+		}
+		c.Violate(sig, fmt.Sprintf("swamp %s: most specific pattern(s) %v last registered persistent=%v but .hyd present=%v on all summons (earlier registrations: %v)", ec.Swamp, best, types, obs[0], ec.Pre), map[string]any{"e2e": ec, "rounds": notes})
 	}
 }
 
@@ -603,11 +670,11 @@ type shard struct {
 func TestCheck(t *testing.T) {
 	c := rig.NewCheck(t, "C21", "exploration")
 	defer c.Finish()
-	c.Rule = "set = 2..5 distinct patterns (>= 2 of them generalisations of one target name: exact, s/r/*, s/*/w, s/*/*; the rest neighbours) with random settings (in-memory|persistent, idle, write interval), 6 lookup names (target + neighbours + non-matching); per set: every permutation of the registrations + 3 re-registration + 3 deregistration histories, each on a fresh settings object and again on a new object reloaded from settings.json, 64 lookups per (object, name); e2e case = overlapping in-memory/persistent patterns registered through the gateway, 12 write/observe/destroy rounds before and 12 after a restart; non-trivial = at least one lookup name matches >= 2 registered patterns; distinct = distinct set JSON"
+	c.Rule = "set = 2..5 distinct patterns (>= 2 of them generalisations of one target name: exact, s/r/*, s/*/w, s/*/*; the rest neighbours) with random settings (in-memory|persistent, idle, write interval), 6 lookup names (target + neighbours + non-matching); per set: every permutation of the registrations + 4 re-registration histories (earlier registrations that differ in exactly the type, the idle time or the write interval, or in everything; the last registration of each pattern is the final one) + 3 deregistration histories, each on a fresh settings object and again on a new object reloaded from settings.json, 64 lookups per (object, name); e2e case = overlapping in-memory/persistent patterns registered through the gateway, about half of them after an earlier registration with the other type and the same idle time, 12 write/observe/destroy rounds before and 12 after a restart; non-trivial = at least one lookup name matches >= 2 registered patterns; distinct = distinct set JSON"
 	c.Assumptions = []string{
 		"pattern forms: whole-segment '*' in the realm and/or swamp position with a literal sanctuary (the forms the property names and the repository uses); a '*' sanctuary ('technically possible, not recommended' in the SDK comment) and partial wildcards are not generated",
 		"a pattern matches a name when the sanctuary is equal and realm/swamp are equal or '*'; specificity = number of wildcards; among equally specific matching patterns any may win, but always the same one (across calls, registration orders, re-registration/deregistration histories and reloads)",
-		"documentation does not say whether registering an already registered pattern with other settings replaces them: after such a history either of the registered settings is accepted for that pattern, as long as it is stable across calls and the reload",
+		"registering an already registered pattern again replaces its settings (the behaviour of the engine: clients re-register their patterns at every start and a changed type, idle time or write interval must take effect): lookups return the LAST registered type / idle / write interval of the winning pattern, at runtime and after the reload; registration order of different patterns is irrelevant",
 		"compared settings = those the statement names: type, close-after-idle, write interval (write interval only for persistent patterns); MaxFileSize (deprecated) and the engine flag are not compared",
 		"a name that matches no registered pattern must not receive a registered pattern's settings; what the default is is not checked, only that it is stable",
 		"e2e: persistent means a .hyd file exists 5 virtual seconds after the write (write interval 1 s), in-memory means it does not; Destroy is used to reset between summons, a failing reset makes the case inconclusive",
